@@ -657,7 +657,7 @@ def _batch_pair(i_op, op, spec, w, live, ref, events, states, discards, note_sol
         return s_
     out_a, res_b = ops.concurrently(w, int(op.get("sched", 0)), float(op.get("p", 0.3)),
                                     lambda: ops.run_games(w, games[0], dict(cfg)), lambda: ops.run_games(w, games[1], dict(cfg)), summ)
-    events.append([i_op, "batch_pair", sides, out_a["status"], res_b["status"]])
+    events.append([i_op, "batch_pair", sides, out_a["status"], res_b["status"], res_b.get("trace")])
     vals = [out_a.get("value") if out_a["status"] == "ok" else None,
             dec(res_b["value"]) if res_b.get("value") is not None else None]
     for keep, out_, val in zip(sides, (out_a, res_b), vals):
